@@ -63,7 +63,7 @@ class Ex:
                 return ("path", self.upvars[fs[0][1]], self.fields_of(rest))
         d = self.tr.single_def(l)
         fields = self.fields_of(proj)
-        if d is not None and depth < 24:
+        if d is not None and depth < 80:
             base = self.of_def(d, depth + 1)
             if base is not None:
                 if not fields:
@@ -135,7 +135,7 @@ class Ex:
         return simplify(self._operand(o, depth))
 
     def _operand(self, o, depth=0):
-        if depth > 24:
+        if depth > 80:
             return ("?",)
         if "k" in o:
             k = o["k"]
